@@ -284,7 +284,8 @@ def _train_stage(rep: Report, plan: dict[str, Any], topo: Any,
                 if e > R.C_DIFF * eps * info['cond']:
                     rep.bad('C11.data_parallel_replicas_differ', stage=stage,
                             dpc=d, layer=n, err=e, key=key)
-        worst = max(R.rel_err(G[n], info['grads'][n]) for n in infos)
+        worst = max([R.rel_err(G[n], info['grads'][n]) for n in infos],
+                    default=0.0)
         rep.stats['neox_gradient_comparisons'] += len(infos)
         if worst <= bound:
             # replicated parameters (row-parallel bias) on the other peers
